@@ -13,32 +13,54 @@ pub enum Kid { E(Expr), S(Stmt), O(nat) }
 impl SyntaxNode {
     /// the child nodes, in source order
     pub uninterp spec fn kids(&self) -> Seq<Kid>;
+    /// what this node is as a child of its parent
+    pub uninterp spec fn as_kid(&self) -> Kid;
+    /// rowan: the child nodes (tokens skipped), in source order
+    #[verifier::external_body] pub fn children(&self) -> (r: SyntaxNodeChildren)
+        ensures r.rest().len() == self.kids().len(), forall|i: int| 0 <= i < r.rest().len() ==> (#[trigger] r.rest()[i]).as_kid() == self.kids()[i],
+    { unimplemented!() }
+}
+impl Clone for SyntaxNode { #[verifier::external_body] fn clone(&self) -> (r: SyntaxNode) ensures r == *self { unimplemented!() } }
+#[verifier::external_body] pub struct SyntaxNodeChildren { _p: u8 }
+impl SyntaxNodeChildren {
+    pub uninterp spec fn rest(&self) -> Seq<SyntaxNode>;
+    /// Iterator::nth (std)
+    #[verifier::external_body] pub fn nth(&mut self, n: usize) -> (r: Option<SyntaxNode>)
+        ensures n < old(self).rest().len() ==> r == Some(old(self).rest()[n as int]) && final(self).rest() == old(self).rest().skip(n + 1),
+                n >= old(self).rest().len() ==> r is None && final(self).rest().len() == 0,
+    { unimplemented!() }
 }
 pub trait AstNode: Sized {
     /// what `Self::cast` makes of a child
     spec fn of_kid(k: Kid) -> Option<Self>;
     spec fn sp_syntax(&self) -> SyntaxNode;
     fn syntax(&self) -> (r: &SyntaxNode) ensures *r == self.sp_syntax();
+    /// generated/nodes.rs: `if Self::can_cast(syntax.kind()) { Some(..) } else { None }`
+    fn cast(syntax: SyntaxNode) -> (r: Option<Self>) ensures r == Self::of_kid(syntax.as_kid());
 }
 impl AstNode for Expr {
     open spec fn of_kid(k: Kid) -> Option<Expr> { match k { Kid::E(e) => Some(e), _ => None } }
     uninterp spec fn sp_syntax(&self) -> SyntaxNode;
     #[verifier::external_body] fn syntax(&self) -> (r: &SyntaxNode) { unimplemented!() }
+    #[verifier::external_body] fn cast(syntax: SyntaxNode) -> (r: Option<Self>) { unimplemented!() }
 }
 impl AstNode for Stmt {
     open spec fn of_kid(k: Kid) -> Option<Stmt> { match k { Kid::S(s) => Some(s), _ => None } }
     uninterp spec fn sp_syntax(&self) -> SyntaxNode;
     #[verifier::external_body] fn syntax(&self) -> (r: &SyntaxNode) { unimplemented!() }
+    #[verifier::external_body] fn cast(syntax: SyntaxNode) -> (r: Option<Self>) { unimplemented!() }
 }
 impl AstNode for BlockExpr {
     open spec fn of_kid(k: Kid) -> Option<BlockExpr> { match k { Kid::E(Expr::BlockExpr(b)) => Some(b), _ => None } }
     open spec fn sp_syntax(&self) -> SyntaxNode { self.syntax }
     fn syntax(&self) -> (r: &SyntaxNode) { &self.syntax }
+    #[verifier::external_body] fn cast(syntax: SyntaxNode) -> (r: Option<Self>) { unimplemented!() }
 }
 impl AstNode for Identifier {
     open spec fn of_kid(k: Kid) -> Option<Identifier> { match k { Kid::E(Expr::Identifier(b)) => Some(b), _ => None } }
     open spec fn sp_syntax(&self) -> SyntaxNode { self.syntax }
     fn syntax(&self) -> (r: &SyntaxNode) { &self.syntax }
+    #[verifier::external_body] fn cast(syntax: SyntaxNode) -> (r: Option<Self>) { unimplemented!() }
 }
 /// the children that cast to N, in order
 pub open spec fn typed<N: AstNode>(ks: Seq<Kid>) -> Seq<N>
@@ -98,8 +120,16 @@ pub open spec fn bors(k: Kid) -> BlockOrStmt {
 pub open spec fn if_shape(ks: Seq<Kid>) -> bool {
     (ks.len() == 2 || ks.len() == 3) && ks[0] is E && !is_block(ks[0]) && is_body(ks[1]) && (ks.len() == 3 ==> is_body(ks[2]))
 }
-/// KF C05-if-single-statement-then: the accessors are right only when the then-body is a block
-pub open spec fn co_if_then_is_stmt(ks: Seq<Kid>) -> bool { ks[1] is S }
+/// the body (block or single statement) that is the index-th child node, if there is one
+pub open spec fn body_at_spec(ks: Seq<Kid>, index: int) -> Option<BlockOrStmt> {
+    if 0 <= index < ks.len() {
+        match ks[index] {
+            Kid::E(Expr::BlockExpr(b)) => Some(BlockOrStmt::BlockExpr(b)),
+            Kid::S(s) => Some(BlockOrStmt::Stmt(s)),
+            _ => None,
+        }
+    } else { None }
+}
 /// assumed-parser (items.rs while_stmt): condition expression, body
 pub open spec fn while_shape(ks: Seq<Kid>) -> bool { ks.len() == 2 && ks[0] is E && !is_block(ks[0]) && is_body(ks[1]) }
 /// assumed-parser (items.rs for_stmt): type, loop variable, iterable (none of them expression or statement nodes), body
